@@ -156,6 +156,54 @@ def check_local(case, ctx):
         ctx.le("llf2ecef has determinant +1", abs(np.linalg.det(M1) - 1.0), 1e-14, route=r)
 
 
+BODIES = [(1738100.0, 1736000.0), (3396190.0, 3376200.0), (6051800.0, 6051800.0), (71492000.0, 66854000.0), (6378137.0, 6356752.3142)]   # Moon, Mars, Venus (sphere), Jupiter, Earth
+
+
+def check_other_ellipsoid(case, ctx):
+    """every transformation that takes the ellipsoid (a, b) as an option, on another body's ellipsoid: the same identities must hold"""
+    from ahrs.common import frames as f
+    p = case.p
+    a, b = BODIES[int(abs(p["lon0"]) * 1e3) % len(BODIES)]
+    lat0, lon0 = p["lat0"], p["lon0"]
+    h0 = float(p["h0"]) * a / 6378137.0
+    enu = np.asarray(p["enu"], float) * a / 6378137.0
+    ne = np.linalg.norm(enu)
+    r = "geodetic<->ecef"
+    out = call(lambda: np.asarray(f.geodetic2ecef(lat0, lon0, h0, a, b), float))
+    if not ctx.returned(out, clause="no-exception[a, b given]", route=r):
+        return
+    O = out.value
+    e2 = (a * a - b * b) / (a * a)
+    phi, lam = np.radians(lat0), np.radians(lon0)
+    N = a / np.sqrt(1 - e2 * np.sin(phi) ** 2)
+    ref = np.array([(N + h0) * np.cos(phi) * np.cos(lam), (N + h0) * np.cos(phi) * np.sin(lam), (N * (1 - e2) + h0) * np.sin(phi)])
+    ctx.le("geodetic2ecef(a=, b=) equals the closed form on that ellipsoid", np.abs(O - ref).max() / a, 1e-14, {"a": a, "b": b}, route=r)
+    for nm, fn in (("ecef2geodetic", f.ecef2geodetic), ("ecef2lla", f.ecef2lla)):
+        o2 = call(lambda: np.asarray(fn(*O, a, b), float))
+        if ctx.returned(o2, clause="no-exception[a, b given]", route=r):
+            llh = o2.value
+            ctx.le("geodetic -> ECEF -> geodetic on another ellipsoid returns latitude (deg) and height (relative to a)",
+                   max(abs(llh[0] - lat0), abs(llh[2] - h0) / a * 1e7), 1e-6, {"a": a, "b": b, "via": nm, "lat": lat0, "back": llh}, route=r)
+    r = "ecef<->enu"
+    out = call(lambda: (np.asarray(f.enu2ecef(*enu, lat0, lon0, h0, a, b), float), np.asarray(f.ecef2enu(*O, lat0, lon0, h0, a, b), float)))
+    if ctx.returned(out, clause="no-exception[a, b given]", route=r):
+        X, zero = out.value
+        ctx.le("ECEF -> ENU on another ellipsoid maps its origin to zero", np.abs(zero).max() / a, 1e-14, {"a": a, "b": b, "image_of_origin": zero}, route=r)
+        o2 = call(lambda: np.asarray(f.ecef2enu(*X, lat0, lon0, h0, a, b), float))
+        if ctx.returned(o2, route=r):
+            ctx.le("ENU -> ECEF -> ENU on another ellipsoid is the identity", np.abs(o2.value - enu).max() / a, 1e-14 + 1e-13 * ne / a, {"a": a, "b": b}, route=r)
+        ctx.le("ENU -> ECEF on another ellipsoid preserves the length of the offset", abs(np.linalg.norm(X - O) - ne) / a, 1e-14 + 1e-13 * ne / a, route=r)
+    r = "geodetic2enu"
+    la1, lo1, h1 = float(np.clip(lat0 + 0.01, -89.9, 89.9)), (lon0 - 0.01 if lon0 > 0 else lon0 + 0.01), h0 + 10.0
+    out = call(lambda: (np.asarray(f.geodetic2enu(la1, lo1, h1, lat0, lon0, h0, a, b), float), np.asarray(f.ecef2enu(*f.geodetic2ecef(la1, lo1, h1, a, b), lat0, lon0, h0, a, b), float)))
+    if ctx.returned(out, clause="no-exception[a, b given]", route=r):
+        ctx.le("geodetic2enu(a=, b=) = ecef2enu(geodetic2ecef(...)) on that ellipsoid", np.abs(out.value[0] - out.value[1]).max() / a, 1e-14, {"a": a, "b": b}, route=r)
+    # enu2uvw with angles in radians
+    out = call(lambda: (np.asarray(f.enu2uvw(*enu, lat0, lon0), float), np.asarray(f.enu2uvw(*enu, np.radians(lat0), np.radians(lon0), angle_unit="rad"), float)))
+    if ctx.returned(out, clause="no-exception[angle_unit=rad]", route="ecef<->enu"):
+        ctx.le("enu2uvw(angle_unit='rad') = enu2uvw(degrees)", np.abs(out.value[0] - out.value[1]).max() / max(ne, 1e-300), 1e-14, route="ecef<->enu")
+
+
 def check_int_scalars(case, ctx):
     """whole-number coordinates / angles typed as Python int or NumPy integers: the same numbers must give the same result as floats"""
     from ahrs.common import frames as f
@@ -191,3 +239,4 @@ def check(case, ctx):
     (check_geodetic if case.route == "geodetic" else check_local)(case, ctx)
     if case.route != "geodetic":
         check_int_scalars(case, ctx)
+        check_other_ellipsoid(case, ctx)
